@@ -1,9 +1,15 @@
 """./vcheck setup: builds everything from files on disk, offline."""
 import os
+import sys
 import common
 
 
 def main():
+    rc, out = common.sh([sys.executable, os.path.join(common.ROOT, "tools", "translate.py")], timeout=300)
+    if rc != 0:
+        common.log(out[-2000:])
+        common.log("setup: translator failed")
+        return 1
     ok, out = common.coq_make()
     common.log(out[-3000:])
     if not ok:
